@@ -16,6 +16,7 @@ from functools import cmp_to_key
 
 from ufl.argument import Argument
 from ufl.coefficient import Coefficient
+from ufl.constantvalue import Zero
 from ufl.core.multiindex import FixedIndex, MultiIndex
 from ufl.variable import Label
 
@@ -131,8 +132,18 @@ def _cmp_terminal_by_repr(a, b):
     return -1 if x < y else (0 if x == y else 1)
 
 
+def _cmp_zero(a, b):
+    """Cmp zero."""
+    # Not by repr, that holds the counts of the free indices: only the
+    # shape and the dimensions of the free indices can be used
+    x = (a.ufl_shape, sorted(a.ufl_index_dimensions))
+    y = (b.ufl_shape, sorted(b.ufl_index_dimensions))
+    return -1 if x < y else (0 if x == y else 1)
+
+
 # Hack up a MultiFunction-like type dispatch for terminal comparisons
 _terminal_cmps = {}
+_terminal_cmps[Zero._ufl_typecode_] = _cmp_zero
 _terminal_cmps[MultiIndex._ufl_typecode_] = _cmp_multi_index
 _terminal_cmps[Argument._ufl_typecode_] = _cmp_argument
 _terminal_cmps[Coefficient._ufl_typecode_] = _cmp_coefficient
